@@ -12,7 +12,7 @@ from .effects import Effects
 from .lin import Lin, Sym
 from .rules_C16 import CACHE_KINDS, check_counter, classify
 from .shared_state import (int_constants, keyed_memo_key_mismatch, CacheInfo, SharedWrite, World, history_definite, recognise_cache, recognise_global_memo, recognise_slot_memo,
-                           value_dependencies, write_is_definite, stale_slot_read, generic_setter)
+                           value_dependencies, write_is_definite, stale_slot_read, generic_setter, resets_whole)
 
 
 # ---------------------------------------------------------------------------------
@@ -458,6 +458,11 @@ def check_shared_writes(ctx, w: World, om: OriginModel) -> None:
             _unk("C17.1", f"shared object {obj} may be modified by {owners[0]}", where,
                  f"`{sw.origin_text}` in {sw.origin_func} is reached through a call whose receiver class is not known: {vague[0]}")
             continue
+        if w.thread_private(sw.obj):
+            _unk("C17.1", f"state kept below the thread-local object {sw.obj} is written by {owners[0]}", where,
+                 f"`{sw.origin_text}` in {sw.origin_func} ({', '.join(sorted(kinds))[:120]}): a per-thread copy of objects whose own idioms are judged where "
+                 f"they are module-level; whether this copy carries history from one call to the next is not decided")
+            continue
         # (1) entries of a cache container initialised after they were stored
         if sw.field in cache_fields and all(x.depth >= 2 for x in sws):
             _unk("C17.1", f"entries of cache {obj} are modified after they were stored ({owners[0]})", where,
@@ -536,6 +541,9 @@ def check_shared_writes(ctx, w: World, om: OriginModel) -> None:
                         f"independence of the callers is not decided")
             continue
         # (4) certain history dependence: read-modify-write / overwriting components of persistent data
+        if any(resets_whole(x) for x in sws):
+            for x in sws:
+                x.object_reset = True       # some function resets the whole object: the others refill a work object
         if any(history_definite(w.model, x) for x in sws):
             _bad("C17.1", f"persistent shared object {obj} is modified by {owners[0]}", where,
                     f"`{sw.origin_text}` in {sw.origin_func} ({', '.join(sorted(kinds))}) changes module-level data that later calls read "
